@@ -1,14 +1,14 @@
 CONSTANTS
- Producers = {"p1","p2"}
- K = 2
- Shapes <- ShOk12
- MaxFaults = 2
+ Producers = {"p1","p2","p3"}
+ K = 1
+ Shapes <- ShOk1
+ MaxFaults = 0
  MaxCrashes = 1
- MaxIdxLoss = 0
+ MaxIdxLoss = 1
  SyncFlush = TRUE
  InlineAt = 0
- Interval = 1
- MBs = {80}
+ Interval = 2
+ MBs = {9}
  FixRestore = TRUE
  FixPublish = TRUE
  FixMonotone = TRUE
@@ -24,9 +24,9 @@ CONSTANTS
  DevNoFlushOnAck = FALSE
  DevTolerateLostIdx = FALSE
  DevRestoreCountsOrphan = FALSE
- DevReadFloorSegment = FALSE
+ DevReadFloorSegment = TRUE
 INIT Init
 NEXT Next
 VIEW View
 CHECK_DEADLOCK FALSE
-INVARIANTS C01_AckedDurable C02_Unique C02_Monotone C02_NoGap C02_BaseIsStored C05_Monotone C05_NotAhead C06_NoHide C06_NoReuse
+INVARIANTS C04_Progress
